@@ -137,3 +137,40 @@ def validated(F, fn, facts, qn):
         if not any(h[0] == need[0] and amatch(need[1], h[1]) for h in have):
             return False
     return bool(rec)
+
+
+def verifier_arguments(F, name_pred=None):
+    """A range verifier judges the value it receives: if the argument is implicitly narrowed (or its sign reinterpreted) at
+    the call, the verifier sees a different number than the caller goes on to use. Every integer argument of every call of a
+    Verify*/Validate*/Check* function must reach it unchanged."""
+    from .report import ok, bad
+    from .facts import CALLS, fmt_term
+    out = []
+    n = 0
+    pred = name_pred or (lambda nm: nm.startswith(("Verify", "Validate", "Check")))
+    for fn in sorted(F.functions.values(), key=lambda f: f.key):
+        if not fn.cfg or fn.d.get("implicit") or not fn.file.startswith(F.repo):
+            continue
+        for nd in fn.nodes:
+            if nd["k"] not in CALLS or not pred(nd.get("fname") or "") or not nd.get("callee_in_repo", True):
+                continue
+            for a, prm in zip(nd.get("args", []), nd.get("params", [])):
+                if not prm.get("iw"):
+                    continue
+                an = fn.n(a)
+                inner = a
+                while fn.n(inner)["k"] == "ImplicitCastExpr" and fn.kids(inner):
+                    inner = fn.kids(inner)[0]
+                src = fn.n(inner)
+                if not src.get("iw") or "cv" in src:
+                    continue
+                n += 1
+                inst = "%s#arg-to:%s(%s)" % (fn.qn, nd.get("fname"), fmt_term(fn.term(a)))
+                req = "the value handed to %s is the value the caller uses: no implicit narrowing or sign change at the call" % nd.get("fname")
+                narrowed = prm["iw"] < src["iw"] or (bool(prm.get("is")) != bool(src.get("is")) and prm["iw"] <= src["iw"])
+                if narrowed and an["k"] == "ImplicitCastExpr":
+                    out.append(bad("R-NARROW", inst, fn.loc(nd["id"]), fn.qn, req,
+                                   "%s (%s) is converted to %s at the call: the verifier tests the converted value" % (fmt_term(fn.term(a)), src.get("ct"), prm.get("ct"))))
+                else:
+                    out.append(ok("R-NARROW", inst, fn.loc(nd["id"]), fn.qn, req, "%s -> %s" % (src.get("ct"), prm.get("ct")), nontrivial=False))
+    return out, n
